@@ -42,7 +42,8 @@ Clause(e_) ==
       [] OTHER -> "unknown-event"
 Init == pos = 1
 Next == /\ pos <= Len(Events)
-        /\ (Clause(Events[pos]) = "ok" \/ PrintT(<<"REJECT", pos, Events[pos].ev, Clause(Events[pos])>>))
+        /\ IF Clause(Events[pos]) = "ok" THEN TRUE
+           ELSE PrintT(<<"REJECT", pos, Events[pos].ev, Clause(Events[pos])>>)
         /\ pos' = pos + 1
 Spec == Init /\ [][Next]_pos
 Finished == pos = Len(Events) + 1 => PrintT(<<"JUDGED", Len(Events)>>)
